@@ -224,6 +224,17 @@ func openFlag(mode string) int {
 // a call still blocked after this long is recorded as blocked (FIFO opened without O_NONBLOCK ...)
 const watchdog = 8 * time.Second
 
+var (
+	keptMu sync.Mutex
+	kept   []*os.File
+)
+
+func keepAlive(f *os.File) {
+	keptMu.Lock()
+	kept = append(kept, f)
+	keptMu.Unlock()
+}
+
 type foWorker struct {
 	probeDir, scratch string
 	envs              map[bool]*env // one container per credential mode, reused across cases
@@ -363,9 +374,17 @@ func (w *foWorker) run(c foCase) foOut {
 					}
 					ev.Res = append(ev.Res, fr)
 				}
+				// close every distinct descriptor once (a faulty Open may hand out one number
+				// several times; closing it repeatedly would hit unrelated descriptors of the driver)
+				closed := map[uintptr]bool{}
 				for _, rr := range res {
 					if rr.File != nil {
-						rr.File.Close()
+						if fd := rr.File.Fd(); !closed[fd] {
+							closed[fd] = true
+							rr.File.Close()
+						} else {
+							keepAlive(rr.File) // never let its cleanup close the number again
+						}
 					}
 				}
 			}
